@@ -621,6 +621,19 @@ class Interp:
             return [st]
         if name.startswith('llvm.dbg.') or name.startswith('llvm.lifetime.'):
             return [st]
+        if hasattr(d, 'call_alternatives'):
+            alts = d.call_alternatives(name, args, ins, self, st, fn)
+            if alts is not NotImplemented:
+                out = []
+                for k, (val, mutate) in enumerate(alts):
+                    s2 = st if k == len(alts) - 1 else st.clone()
+                    if mutate is not None:
+                        mutate(s2)
+                    if ins.res is not None:
+                        s2.env[ins.res] = val
+                    if d.feasible(s2.pc):
+                        out.append(s2)
+                return out
         r = d.call(name, args, ins, self, st, fn)
         if r is not NotImplemented:
             if ins.res is not None:
